@@ -216,6 +216,7 @@ func c16Check(f c16File) (verdict string) {
 		}
 	}()
 	data := f.Data
+	orig := append([]byte(nil), data...)
 	pf, perr := riffwalk.Parse(data)
 	img, derr := webp.Decode(bytes.NewReader(data))
 	cfg, cerr := webp.DecodeConfig(bytes.NewReader(data))
@@ -321,6 +322,16 @@ func c16Check(f c16File) (verdict string) {
 		if ref.anim && v.hasLoop && v.loop != ref.loop {
 			return fmt.Sprintf("%s reports loop count %d, the file says %d", v.who, v.loop, ref.loop)
 		}
+	}
+	// (c) the views above were taken of ONE file: the readers that are handed the caller's byte
+	// slice (demuxer, animation reader - also after decoding the frames) must leave it as it was,
+	// or the next view is a view of something else
+	_ = an.DecodeFrames()
+	for i := 0; i < dmx.NumFrames(); i++ {
+		dmx.Frame(i)
+	}
+	if !bytes.Equal(data, orig) {
+		return "the file's bytes were modified by a reader (demuxer / animation reader / frame decoding): later views are views of a different file"
 	}
 	return ""
 }
